@@ -75,7 +75,7 @@ def c11a(ctx):
         if same(r.value, 'self.old_level_progresses'):
             ok = ok and enclosing(r, ast.If) is not None
         else:
-            ok = ok and unparse(r.value) in ('self.level_progresses[:]', 'list(self.level_progresses)', 'self.level_progresses.copy()')
+            ok = ok and cp.ctext(r.value) in ('self.level_progresses[:]', 'list(self.level_progresses)', 'self.level_progresses.copy()')
     ctx.check(ok, 'SeedProgress.current_progress_identifier:value', 'the identifier is a copy of the current path, or the old one while still skipping', cp,
               fail='the stored identifier is not (a copy of) the current DFS path')
 
@@ -394,7 +394,12 @@ def c11f(ctx):
               fail='the initial progress equals the identifier that means "everything finished" (%s): a run interrupted right after its first '
                    'progress report is skipped completely on --continue' % fin)
     cp = ctx.fn(S + ':SeedProgress.current_progress_identifier')
-    ok = any(isinstance(s, ast.If) and 'self.level_progresses is None' in unparse(s.test) for s in cp.walk())
+    # the old identifier is returned whenever the current path is still None (closed form of the test: the attribute may be read into a local)
+    g = cp.cfg
+    olds = [g.node_of[id(r)] for r in returns_of(cp.node) if same(r.value, 'self.old_level_progresses')]
+    news = [g.node_of[id(r)] for r in returns_of(cp.node) if not same(r.value, 'self.old_level_progresses')]
+    isnone = lambda at: at.op == '==' and 'None' in (unparse(at.left), unparse(at.right)) and any(same(e, 'self.level_progresses') for e in (at.left, at.right))
+    ok = bool(olds) and bool(news) and all(g.guarded(n, isnone, False) for n in news)
     ctx.check(ok, 'SeedProgress.current_progress_identifier:none-keeps-old', 'before the first step_down the old identifier is kept', cp,
               fail='current_progress_identifier does not keep the old identifier while the walk has not started')
 
